@@ -14,7 +14,7 @@ structure Inv (s : St) : Prop where
   wr : ∀ i m, (i, m) ∈ s.written → ∃ h, s.helpers i = some h ∧ h.msg = m ∧ h.pc.hasWritten = true
   wr2 : ∀ i h, s.helpers i = some h → h.pc.hasWritten = true → (i, h.msg) ∈ s.written
   nodup : (s.written.map Prod.fst).Nodup
-  trIs : ∀ t, s.trW = some t → t = trailerWithStatus s.trailer s.code s.smsg ∧ s.phase = .done
+  trIs : ∀ t, s.trW = some t → t = encodeMD (trailerWithStatus s.trailer s.code s.smsg) ∧ s.phase = .done
   fresh : ∀ i, s.next ≤ i → s.helpers i = none
   hdrSent : s.hdrW.isSome → s.sentMD = true
   noMD : s.sentMD = false → s.written = []
